@@ -20,6 +20,7 @@ type Printer struct {
 	Cat refsym.Catalog
 	Ctx *refsym.Context
 	B   strings.Builder
+	lastWasLong bool
 	// UseSIDs lets the printer write $n for texts the current context defines.
 	UseSIDs bool
 	Err     error
@@ -528,6 +529,20 @@ func (p *Printer) Value(v *model.Value, inSexp bool) string {
 }
 
 func (p *Printer) bare(v *model.Value, inSexp bool) string {
+	// Two long strings that are adjacent tokens would concatenate into one value.
+	prevLong := p.lastWasLong
+	p.lastWasLong = false
+	if v.Kind == model.String && !v.IsNull {
+		if !prevLong && len(v.Ann) == 0 && p.C.Flip("str:long") {
+			p.lastWasLong = true
+			return p.longString(v.S, false, true)
+		}
+		if len(v.Ann) > 0 && p.C.Flip("str:long") {
+			p.lastWasLong = true
+			return p.longString(v.S, false, true)
+		}
+		return p.shortQuoted(v.S, '"', false)
+	}
 	if v.Kind == model.Null {
 		if p.C.Flip("null:explicit-null-null") {
 			return "null.null"
